@@ -421,21 +421,21 @@ META = {
             "design_ref": "DESIGN.md §4 C02", "note": "bounds: (a) 5 (quick) / 7 (thorough) steps, <= 1 / 2 elections; (b) 3 terms with <= 2/1/1 (quick) or 2/2/2 (thorough) messages per term, fetches are single batched message sets; (d) 3/1/3 (quick) or 4/2/4 (thorough) steps per term from {publish, follower fetch, removal of the crashed second leader from the ISR}; transport and Raft are outside; the step harness's glue is hand-mirrored (see assumptions); message values symbolic (solver decides byte equalities)", "technique": TECH},
     "C18": {"text": "Bounded model checking of the implementation by the symbolic executor: a Raft log of event-kind operations, non-event operations and non-command entries is committed step by step while the real dispatcher goroutine runs; publishes and marker applies fail by choice (bounded), leadership is lost and regained, the manager restarts from the recovered marker; back-off timers are virtual. The recorded publish sequence is checked for at-least-once, id = Raft index, commit order of first appearances and head-of-line blocking.",
             "design_ref": "DESIGN.md §4 C18", "note": "bounds: 2-3 operations, 4-5 steps (commit with drain / run-until-blocked / burst, failover, restart, restart from a snapshot with or without log compaction up to the last published entry), 1-2 publish failures, 1 marker failure; concrete-shaped data (exhaustive enumeration of decision vectors); replay by concrete re-execution", "technique": TECH},
-    "C11": {"text": "Bounded model checking of the implementation by the symbolic executor: every sequence of k operations from {SetCursor, FetchCursor (2 cursor ids), cache purge / become leader, compaction of the cursors log, pause+resume (log closed and reopened), restart (fresh cache), a cleaner interval passing (the log's own cleaner loop rolls an aged active segment, then compacts)} on the real cursor manager + reverse subscription + commit log; every fetch is compared with a map model.",
+    "C11": {"text": "Bounded model checking of the implementation by the symbolic executor: every sequence of k operations from {SetCursor, FetchCursor (2 cursor ids), cache purge / become leader, compaction of the cursors log, pause+resume (log closed and reopened), restart (fresh cache), a cleaner interval passing (the log's own cleaner loop rolls an aged active segment, then compacts)} on the real cursor manager + reverse subscription + commit log; every fetch is compared with a map model. Two overlapping SetCursor calls for one cursor (exploring scheduler): afterwards the cached answer and the answer read from the cursors stream agree.",
             "design_ref": "DESIGN.md §4 C11", "note": "bounds: k = 4 (quick) / 5 (thorough) sequential operations, 2 cursor ids, offsets from {0,5,300}; one cache-missing FetchCursor racing one SetCursor on the same cursor under the exploring scheduler (pre-emption bound 1 / 2); a cursors-partition leader change is a cache purge plus, by choice, the new leader's HW one message behind until the next replication request (known finding F33); leadership may move to another server and back (requests must be refused meanwhile); data is concrete-shaped here (the solver decides nothing of substance; the quantifier is covered by exhaustive enumeration of decision vectors); real leader change over NATS outside", "technique": TECH},
-    "C07": {"text": "Bounded model checking of the implementation by the symbolic executor: on a controller with a 3-replica partition, every sequence of k events from {leader report, ISR shrink, ISR expand (each by any of 4 ids incl. a non-replica, naming the current or a stale leader/epoch; stale epochs are arbitrary 64-bit values decided by the solver), report-window expiry, controller leadership loss} runs through the real ReportLeader/ShrinkISR/ExpandISR/failover/FSM code; after every event the leadership invariants are asserted against a witness model.",
+    "C07": {"text": "Bounded model checking of the implementation by the symbolic executor: on a controller with a 3-replica partition, every sequence of k events from {leader report, ISR shrink, ISR expand (each by any of 4 ids incl. a non-replica, naming the current or a stale leader/epoch; stale epochs are arbitrary 64-bit values decided by the solver), report-window expiry, controller leadership loss} runs through the real ReportLeader/ShrinkISR/ExpandISR/failover/FSM code; after every event the leadership invariants are asserted against a witness model. At the moment an ISR change is sequenced the Raft stand-in checks that it names the partition's current leader and leader epoch.",
             "design_ref": "DESIGN.md §4 C07", "note": "bounds: k = 3 (quick) / 4 (thorough) events, one partition with 3 replicas starting with the full in-sync set or leader + one follower, four other partitions led by the followers, sequential requests; replay by concrete re-execution (Raft stand-in)", "technique": TECH},
     "C15": {"text": "Symbolic execution of all 16 client API methods of the current source with ACLs on: the policy's answer for the call is a symbolic boolean, back ends are effect recorders, the partition and the consumer group's current subscription are real. On the 'no' side the call must return an error, the effect log must be empty and the existing subscription must still be the active one. The list of methods is fixed in the harness (a new RPC needs a new case).",
             "design_ref": "DESIGN.md §4 C15", "note": "bounds: one request shape per method (fields that could be confused carry different values), partition paused or not, the policy's symbolic answer belongs to the documented (resource, action) of the method and anything else it is asked about has an answer of its own, one two-message PublishAsync session with the answer changing in between; what is not decided: casbin's matching, certificate -> client id, policy reload plumbing", "technique": TECH},
-    "C04": {"text": "Bounded symbolic model checking of the implementation: a batch of publishes with symbolic ack policy, size class, expected offset and encryption outcome runs through the real leader loop and commit loop; replica progress reports (symbolic offsets), ISR shrinks and expansions follow in every order; every ack handed to the ack inbox is recorded and checked against the policy semantics, the stored bytes at the acked offset, and the in-sync set and per-follower stored offsets as the harness itself accounts for them (ISR changes applied, offsets reported), not the leader's bookkeeping.",
+    "C04": {"text": "Bounded symbolic model checking of the implementation: a batch of publishes with symbolic ack policy, size class, expected offset and encryption outcome runs through the real leader loop and commit loop; replica progress reports (symbolic offsets), ISR shrinks and expansions follow in every order; every ack handed to the ack inbox is recorded and checked against the policy semantics, the stored bytes at the acked offset, and the in-sync set and per-follower stored offsets as the harness itself accounts for them (ISR changes applied, offsets reported), not the leader's bookkeeping. The pipeline harness of C02 (real replicators/follower handlers, a late replication request from another leader epoch with symbolic epoch and offset) is run at 4/5 steps, and the stream's minimum in-sync-set size is followed from configuration (stream setting or cluster default) to the partition that enforces it across create, pause/resume and snapshot/restore.",
             "design_ref": "DESIGN.md §4 C04", "note": "bounds: batch of 1-2 messages, 2 (quick) / 3 (thorough) follow-up actions, replication factor 1 or 3, min ISR 1..RF; action-atomic interleaving; replay by concrete re-execution (stand-ins)", "technique": TECH},
-    "C16": {"text": "Bounded symbolic model checking of the implementation: (a) k conditional single-message appends with arbitrary 64-bit expected offsets on a real log with concurrency control: stored iff -1 or exactly the assigned offset, refused appends leave the log unchanged, no two appends with the same expected offset succeed; (b) the leader loop on such a partition with 2-3 publishes arriving together: each is appended on its own, refused ones get INCORRECT_OFFSET and nothing else is disturbed.",
+    "C16": {"text": "Bounded symbolic model checking of the implementation: (a) k conditional single-message appends with arbitrary 64-bit expected offsets on a real log with concurrency control: stored iff -1 or exactly the assigned offset, refused appends leave the log unchanged, no two appends with the same expected offset succeed; (b) the leader loop on such a partition with 2-3 publishes arriving together: each is appended on its own, refused ones get INCORRECT_OFFSET and nothing else is disturbed. (e) both gRPC publish entry points (unary Publish, PublishAsync) with an arbitrary 64-bit expected offset: the message handed to the envelope encoder carries exactly the request's expected offset and fields.",
             "design_ref": "DESIGN.md §4 C16", "note": "bounds: 3 (5) appends; 2 (3) publishes in the leader loop; arrival order is the channel order (one receive channel)", "technique": TECH},
     "C06": {"text": "Bounded model checking of the implementation by the symbolic executor: every valid history of k operations (12 kinds, validity decided by the real check*Preconditions) is applied through the real Server.Apply on two servers (determinism), snapshotted at every position j, and a third server is restarted on the first one's data directory by Restore(snapshot@j) plus replay of j+1..k through the real recovery-range detection; streams, partitions, leaders, ISR, epochs, paused/read-only flags (as enforced by the commit log), groups, members, coordinators, the deferred-start flag and the stream data directories are compared.",
             "design_ref": "DESIGN.md §4 C06", "note": "bounds: k = 3 (quick) / 4 (thorough) operations, all snapshot positions 0..k, work left to goroutines by Apply may be delayed past the next operation (async=1); the data here is concrete-shaped, so the solver's role is small: the quantifier is covered by exhaustive enumeration of decision vectors in the executor; counterexamples are replayed by concrete re-execution in the interpreter (the harness depends on the Raft stand-in)", "technique": TECH},
     "C19": {"text": "Symbolic execution of the real collector (New/Start/run/sendTelemetry/collectPayload/loadOrCreateInstanceID) with a symbolic enabled flag, a virtual clock that lets two reporting intervals pass, memFS for the instance-id file and the HTTP stack as an effect recorder: disabled => no request at all; enabled => endpoint fixed, JSON keys within the documented set, the data directory string (standing for everything the server passes in) absent from URL, headers and body. This is the thinnest check of the set: one symbolic boolean; its value is that it re-derives the key set and the data flow from the current source on every run.",
             "design_ref": "DESIGN.md §4 C19", "note": "the configuration-to-wire harness runs the real parseTelemetryConfig over a viper stand-in (independent symbolic answer per key) and the real Server.Start with the rest of the start-up as no-op stand-ins; what is not decided: viper's own env/file resolution, the real HTTP transport, what the OS reveals through runtime.Version()", "technique": TECH},
-    "C17": {"text": "Bounded symbolic model checking of the framing and data flow of server-side encryption: Seal/Read round trip for every value up to the bound, Read total (error, never a panic) on every byte string up to the bound, on every truncation of a sealed value and on every corruption of the key-size byte. The cryptography itself is replaced by stand-ins and is not claimed.",
+    "C17": {"text": "Bounded symbolic model checking of the framing and data flow of server-side encryption: Seal/Read round trip for every value up to the bound, Read total (error, never a panic) on every byte string up to the bound, on every truncation of a sealed value and on every corruption of the key-size byte. The cryptography itself is replaced by stand-ins and is not claimed. Whether a stream is encrypted (server-wide default or per-stream setting) is followed from configuration to the partition's codec across create, pause/resume and snapshot/restore.",
             "design_ref": "DESIGN.md §4 C17", "note": "bounds: values 0-32 (64) bytes, 2-3 values of 0-4 (8) bytes sealed before any is read (a leader batch), arbitrary stored forms 0-48 (80) bytes; what is NOT decided: that the log never contains plaintext (needs the real cipher), tampering inside the AEAD/KWP blobs, distinct master keys; the leader-loop data flow (value handed to Append is the Seal output) is part of the C04/C16 partition harness", "technique": TECH},
     "C10": {"text": "Bounded symbolic model checking of the implementation: partition.Subscribe with its real subscription loop on dense, compacted (offset gaps), retention-trimmed and empty logs, HW at or below the end, read-only or not; start position (5) x stop position (4) x direction (2) with symbolic offsets and timestamps; delivered sequence and termination compared with a specification function. Plus the timestamp look-ups on symbolic layouts (incl. an empty active segment) and a reader kept open across two compactions with symbolic keys.",
             "design_ref": "DESIGN.md §4 C10", "note": "bounds: 4 messages (one per segment) per shape, offsets in [-1,newest+2], timestamps in [0,50] against message times 10..40; look-ups: 3-5 messages, segment size 40..200; reverse x stop-timestamp not asserted", "technique": TECH},
@@ -443,10 +443,10 @@ META = {
             "design_ref": "DESIGN.md §4 C13", "note": "bounds: 4 (quick) / 5 (thorough) operations, one consumer group, two consumer ids, run-to-block scheduling between operations", "technique": TECH},
     "C12": {"text": "Bounded symbolic model checking of the implementation: the real consumerGroup code runs on directly constructed groups; consumer ids are symbolic pairwise-distinct strings (every relative order of ids is a solver case), partition counts, subscriptions and the join/leave/stream-delete history are choices explored exhaustively within the bound; after each operation the exactly-one-owner, subscribed-only, balance and two-replica-agreement assertions are checked.",
             "design_ref": "DESIGN.md §4 C12", "note": "bounds: 3 members, 2 streams with 1-3 and 1-2 partitions, 4 (quick) / 5 (thorough) operations; liveness timers: VerifC12Expiry (3 fixed ids, 4 (quick) / 6 (thorough) steps from join / poll / time passes 4 s or 6 s with timeout 10 s / coordinator moves away or back / leave, removal of an expired member may fail once); what the coordinator serves through GetAssignments (current epoch only, coordinator only) is observed after every step; the delivery order of StreamDeleted relative to later operations is explored by the C06 harness (async=1)", "technique": TECH},
-    "C03": {"text": "Bounded symbolic model checking of the implementation: (a) the committed reader on the real log for every start offset, HW position and HW step across every segment layout reachable with the stated sizes; (b) a parked reader woken by the HW; (c) thorough tier: appender, cleaner-loop segment roller, HW setter and committed reader as goroutines under an exploring scheduler (pre-emption bound 1-2) with an online monitor: nothing above the HW, each committed message once in order, no lost wake-up, HW monotone, unique consecutive offsets in the log.",
+    "C03": {"text": "Bounded symbolic model checking of the implementation: (a) the committed reader on the real log for every start offset, HW position and HW step across every segment layout reachable with the stated sizes; (b) a parked reader woken by the HW; (c) thorough tier: appender, cleaner-loop segment roller, HW setter and committed reader as goroutines under an exploring scheduler (pre-emption bound 1-2) with an online monitor: nothing above the HW, each committed message once in order, no lost wake-up, HW monotone, unique consecutive offsets in the log. A committed reader created while the HW advances (symbolic start/h0/h1, exploring scheduler) delivers start..h1 once, in order.",
             "design_ref": "DESIGN.md §4 C03", "note": "bounds: 3-4 messages, segment size 40..200; schedules: 2 appends, 1 roll, 2 HW updates, 1 reader, pre-emption bound 1 (quick) / 2 (thorough), round-robin choice of the next goroutine when the running one blocks; a read-only toggle racing a reader and the HW catching up (VerifC03Readonly); two concurrent HW writers with symbolic values, an observer and two committed readers - one from offset 0, one parked beyond the HW - (VerifC03HWWriters); schedule counterexamples are replayed by concrete re-execution in the interpreter (replay_kind=interpreted) plus a native twin driver; more than two readers at a time are outside", "technique": TECH},
-    "C05": {"text": "Bounded symbolic model checking of the implementation: the real commit log runs over an in-memory file system whose every mutating effect (file write, mmap store, create, truncate, rename, remove, atomic replace) is counted; the crash point k is a symbolic variable, so within each workload every point between two effects is covered; after the crash the real New() recovers the directory and a full read-back, index point look-ups, HW, epoch history and a further append are checked. Counterexamples are confirmed by writing the crash-time image into a real directory and running the real recovery on it.",
-            "design_ref": "DESIGN.md §4 C05", "note": "bounds: workloads of 2-3 appends (+HW checkpoint), Truncate/retention/compaction of 3 (quick) / 4 (thorough) messages in 1-4 segments, one crash per run; process-crash model (returned effects durable, single write/rename atomic); crash during recovery and torn writes outside", "technique": TECH},
+    "C05": {"text": "Bounded symbolic model checking of the implementation: the real commit log runs over an in-memory file system whose every mutating effect (file write, mmap store, create, truncate, rename, remove, atomic replace) is counted; the crash point k is a symbolic variable, so within each workload every point between two effects is covered; after the crash the real New() recovers the directory and a full read-back, index point look-ups, HW, epoch history and a further append are checked. Counterexamples are confirmed by writing the crash-time image into a real directory and running the real recovery on it. A second crash during the recovery (symbolic j-th effect of the reopening) is explored for the append, truncate, retention and compaction workloads.",
+            "design_ref": "DESIGN.md §4 C05", "note": "bounds: workloads of 2-3 appends (+HW checkpoint), Truncate/retention/compaction of 3 (quick) / 4 (thorough) messages in 1-4 segments, one crash per run plus the double-crash harnesses (2-3 / 3-4 messages); process-crash model (returned effects durable, single write/rename atomic); a third crash and torn writes outside", "technique": TECH},
     "C01": {"text": "Bounded symbolic model checking of the implementation: the real commit log (New/Append/AppendMessageSet/Truncate/Close+New/readers) runs symbolically over an in-memory file system; operation choice, payload bytes, timestamps, epochs, truncation offsets and the segment-size limit are symbolic; after every step the readable content is compared with an independent model.",
             "design_ref": "DESIGN.md §4 C01", "note": "bounds: quick <=2 batches of <=2 messages / 2 operation steps / 3 messages with a long-lived reader over 4 key/value shapes (nil|empty|1-2 symbolic bytes); 1 (quick) / 2 (thorough) messages with 0-2 headers (names 0-2 symbolic bytes, values nil|empty|1-2 bytes); the mmap index as a unit with 1-4 pre-allocated slots and 2-3 batches of 1-3 entries (growth path); thorough 3 batches / 3 steps with headers / 4 messages over 2 shapes; segment size 1..4096; memFS stands in for the OS; timestamps > 0", "technique": TECH},
     "C08": {"text": "Bounded symbolic model checking of the implementation: real compaction on a real log over memFS for every key pattern (nil/empty/1 symbolic byte), every segment layout reachable with the stated sizes, every HW, 1-2 scan workers, an append racing the compaction, and a repeated Clean; forward and reverse read-back from every start compared with an independently computed survivor set.",
